@@ -8,6 +8,7 @@
 3. every ordered pair of configurations run back to back on the SAME memoised data source /
    handler objects (also the same one twice, also after a burst of unrelated price queries).
 """
+import copy
 import datetime
 import hashlib
 import itertools
@@ -230,7 +231,7 @@ def explore_config(args):
             seam.base = 0
             seam.batch = []
             try:
-                session, signals = sl.build_session(cfg, handler)
+                session, signals = sl.build_session(cfg, copy.deepcopy(handler))
                 pcm = session.qts.portfolio_construction_model
                 orig_call = pcm._generate_rebalance_orders if hasattr(pcm, '_generate_rebalance_orders') else None
                 if orig_call is not None:
@@ -301,19 +302,47 @@ def explore_config(args):
 # ------------------------------------------------------------------------------------------
 # sub-check 3: history of the shared memoised source
 # ------------------------------------------------------------------------------------------
+def other_market():
+    """same symbols and dates, different prices"""
+    from .. import refmodel as rm
+    from .. import sessionlab as sl
+    days = rm.bdays(datetime.date(2020, 2, 17), datetime.date(2020, 3, 6))
+    return sl.make_market(days, {'AAA': ('falling', '77.77'), 'BBB': ('zigzag', '12.34'), 'CCC': ('rising', '55.05')})
+
+
+def pristine_digest(j):
+    """digest of configuration j in a process that has done nothing else"""
+    from .. import sessionlab as sl
+    market, cfgs = market_and_configs()
+    d = scratch_dir('qsc18p-')
+    try:
+        sl.write_market(d, market)
+        h, _ = sl.load_handler(d, market)
+        return digest_obs(sl.run_session(cfgs[j], h))
+    finally:
+        shutil.rmtree(d, ignore_errors=True)
+
+
 def shared_source(args):
     from .. import market as mk
     from .. import sessionlab as sl
     import pandas as pd
-    i, j, mode = args
+    i, j, mode, want = args
     market, cfgs = market_and_configs()
     d = scratch_dir('qsc18s-')
     viols = []
     try:
+        if mode == 'other_market':
+            # an unrelated market is traded first in this process, on its own data source objects
+            d2 = scratch_dir('qsc18o-')
+            try:
+                m2 = other_market()
+                sl.write_market(d2, m2)
+                h2, _ = sl.load_handler(d2, m2)
+                sl.run_session(cfgs[i], h2)
+            finally:
+                shutil.rmtree(d2, ignore_errors=True)
         sl.write_market(d, market)
-        h_fresh, _ = sl.load_handler(d, market)
-        want = digest_obs(sl.run_session(cfgs[j], h_fresh))
-        mk.clear_caches()
         handler, src = sl.load_handler(d, market)
         if mode == 'burst':
             for a in NAMES:
@@ -322,22 +351,23 @@ def shared_source(args):
                         t = pd.Timestamp(datetime.datetime(2020, 2, day, hh, 30 if hh == 14 else 0), tz='UTC')
                         src.get_bid(t, a)
                         src.get_ask(t, a)
-        else:
-            sl.run_session(cfgs[i], handler)
-        got = digest_obs(sl.run_session(cfgs[j], handler))
+        elif mode == 'pair':
+            sl.run_session(cfgs[i], handler, fresh=False)
+        got = digest_obs(sl.run_session(cfgs[j], handler, fresh=False))
         if got != want:
             viols.append({'clause': 'C18.depends_on_source_history', 'signature': '%s' % mode,
-                          'detail': {'first': cfgs[i]['name'] if mode != 'burst' else 'burst of price queries',
-                                     'second': cfgs[j]['name'], 'digest_on_fresh_objects': want, 'digest_after_history': got},
-                          'case': {'kind': 'shared', 'i': i, 'j': j, 'mode': mode}})
-        # and the same configuration twice in the same process on fresh objects
-        mk.clear_caches()
+                          'detail': {'first': {'pair': cfgs[i]['name'], 'burst': 'burst of price queries',
+                                               'other_market': cfgs[i]['name'] + ' on another market'}[mode],
+                                     'second': cfgs[j]['name'], 'digest_in_pristine_process': want,
+                                     'digest_after_history': got},
+                          'case': {'kind': 'shared', 'i': i, 'j': j, 'mode': mode, 'want': want}})
+        # and the same configuration again in the same process on fresh objects
         h3, _ = sl.load_handler(d, market)
         again = digest_obs(sl.run_session(cfgs[j], h3))
         if again != want:
             viols.append({'clause': 'C18.repeat_in_process', 'signature': cfgs[j]['name'],
-                          'detail': {'configuration': cfgs[j]['name'], 'first': want, 'second': again},
-                          'case': {'kind': 'shared', 'i': i, 'j': j, 'mode': mode}})
+                          'detail': {'configuration': cfgs[j]['name'], 'pristine': want, 'again': again},
+                          'case': {'kind': 'shared', 'i': i, 'j': j, 'mode': mode, 'want': want}})
     finally:
         mk.clear_caches()
         shutil.rmtree(d, ignore_errors=True)
@@ -420,9 +450,12 @@ def run(tier, res, is_known):
                 'complete below it' % (max_execs, res.extra['capped_configs']))
     if any(not is_known(v) for v in res.violations):
         return
-    pairs = [(i, j, 'pair') for i in range(len(cfgs)) for j in range(len(cfgs))]
-    pairs += [(0, j, 'burst') for j in range(len(cfgs))]
-    core.product(shared_source, pairs, res, is_known, label='shared source histories', chunk=1)
+    pristine = dict(zip(range(len(cfgs)), core.pmap(pristine_digest, list(range(len(cfgs))), chunk=1)))
+    res.executions += len(cfgs)
+    pairs = [(i, j, 'pair', pristine[j]) for i in range(len(cfgs)) for j in range(len(cfgs))]
+    pairs += [(0, j, 'burst', pristine[j]) for j in range(len(cfgs))]
+    pairs += [(i, j, 'other_market', pristine[j]) for i in (0, 1, 3) for j in range(len(cfgs))]
+    core.product(shared_source, pairs, res, is_known, label='shared source / process histories', chunk=1)
     if any(not is_known(v) for v in res.violations):
         return
     # fresh interpreters
@@ -438,26 +471,16 @@ def run(tier, res, is_known):
     res.extra['realised_difference_orders'] = sorted(set(','.join(o['witness_diff']) for o in outs.values()))
     if len(found) < 6:
         res.cap('only %d of 6 iteration orders of the witness set were realised by seeds 0..399' % len(found))
-    # in-process reference digests (no seams)
-    from .. import market as mk
-    from .. import sessionlab as sl
-    d = scratch_dir('qsc18m-')
-    try:
-        sl.write_market(d, market)
-        for cfg in cfgs:
-            handler, _ = sl.load_handler(d, market)
-            mine = digest_obs(sl.run_session(cfg, handler))
-            mk.clear_caches()
-            others = {s: o['digests'][cfg['name']] for s, o in outs.items()}
-            bad = {s: v for s, v in others.items() if v != mine}
-            res.outcomes.add((cfg['name'], mine))
-            if bad:
-                s0 = sorted(bad)[0]
-                res.add_violation({'clause': 'C18.depends_on_hash_seed', 'signature': cfg['name'],
-                                   'detail': {'configuration': cfg['name'], 'this_process': mine, 'other_seeds': bad},
-                                   'case': {'kind': 'seed', 'config': cfg['name'], 'seed': s0}})
-    finally:
-        shutil.rmtree(d, ignore_errors=True)
+    for j, cfg in enumerate(cfgs):
+        mine = pristine[j]
+        others = {sd: o['digests'][cfg['name']] for sd, o in outs.items()}
+        bad = {sd: val for sd, val in others.items() if val != mine}
+        res.outcomes.add((cfg['name'], mine))
+        if bad:
+            s0 = sorted(bad)[0]
+            res.add_violation({'clause': 'C18.depends_on_hash_seed', 'signature': cfg['name'],
+                               'detail': {'configuration': cfg['name'], 'seed_0_process': mine, 'other_seeds': bad},
+                               'case': {'kind': 'seed', 'config': cfg['name'], 'seed': s0}})
     res.states = res.executions
     res.transitions = res.executions
 
@@ -469,7 +492,7 @@ def replay(case):
         out = explore_config((case['config'], 2, 3000))
         return out['viols']
     if case['kind'] == 'shared':
-        return shared_source((case['i'], case['j'], case['mode']))['viols']
+        return shared_source((case['i'], case['j'], case['mode'], case['want']))['viols']
     if case['kind'] == 'seed':
         outs = run_children([str(case['seed']), '0'])
         a, b = [o['digests'][case['config']] for o in outs.values()]
